@@ -301,7 +301,19 @@ def main(argv=None):
         cells = mod.cells(a.tier)
         corpus = sorted(glob.glob(os.path.join(VERIF, "corpus", prop, "*.json")))
         if corpus:
-            cells.append({"name": "corpus", "direct": True, "replay": corpus, "cost": 1e9})
+            # saved cases are replayed in the execution mode of the cell that
+            # found them (a hang is only catchable in interpreted mode)
+            by_mode = {}
+            for path in corpus:
+                try:
+                    with open(path) as fh:
+                        m = (json.load(fh).get("cell") or {}).get("mode", "jit")
+                except Exception:
+                    m = "jit"
+                by_mode.setdefault(m, []).append(path)
+            for m, paths in sorted(by_mode.items()):
+                cells.append({"name": "corpus" if m == "jit" else "corpus-" + m, "direct": True,
+                              "replay": paths, "cost": 1e9, "mode": m})
         if a.cells:
             keys = a.cells.split(",")
             cells = [c for c in cells if any(k in c["name"] for k in keys)]
